@@ -134,7 +134,9 @@ def scenarios(tier):
             ds = 'x'.join(map(str, dims))
             T.append({'name': 'tvd0/%s/%s' % (g, ds), 'fn': 'pv.props.c05:tvd_limits', 'params': {'g': g, 'dims': dims},
                       'timeout': 30, 'validate': 1})
-        tu = {1: [[3], [4]], 2: [[3, 2], [2, 3]], 3: [[3, 2, 2], [2, 2, 3]]}[nd]
+        tu = {1: [[3], [4]], 2: [[3, 2], [2, 3]], 3: [[3, 2, 2], [2, 3, 2], [2, 2, 3]]}[nd]
+        if tier == 'thorough':
+            tu = tu + {1: [[5]], 2: [[3, 4]], 3: [[2, 3, 4]]}[nd]
         for dims in tu:
             T.append({'name': 'tvd1/%s/%s' % (g, 'x'.join(map(str, dims))), 'fn': 'pv.props.c05:tvd_unit',
                       'params': {'g': g, 'dims': dims}, 'timeout': 30, 'validate': 1})
